@@ -116,15 +116,7 @@ def run(ctx):
                 if morig != Fraction(S['orig']):
                     mism.append((case, {'what': 'cost of the original model', 'harness_from_shapes': S['orig'], 'model': float(morig)}))
                 # gradient: pids in the order of all_pids; a tensor = a consecutive block of pids
-                k = 0
                 acc = {}
-                for ent in S['pids']:
-                    n = len(ent['grad']) if ent['grad'] is not None else None
-                    # block length = number of elements of the tensor: recover from the model side by the coq literal order
-                    ent['_k'] = k
-                    ln = ent.get('len')
-                    k += 0
-                # block lengths: from the parameter values
                 pos = 0
                 for ent, ln in zip(S['pids'], S['lens']):
                     blk = [Fraction(a, b) for a, b in grads[pos:pos + ln]]
